@@ -8,6 +8,7 @@ use memchr_rs::{memchr, memchr2};
 use crate::arena::{Arena, ArenaCow, ArenaString};
 use crate::arena_format;
 use crate::diagnostics::{AsStr, Diagnostics, Label, Severity, Span};
+use crate::helpers::StackGuard;
 use crate::syntax::scanner::Lexer;
 use crate::syntax::token::{SpannedToken, Token};
 
@@ -201,6 +202,7 @@ pub enum SyntaxError {
     TrailingTokensAfterProgramEnd,
     ReservedKeyword,
     InvalidAssignmentTarget,
+    NestingTooDeep,
 }
 
 impl AsStr for SyntaxError {
@@ -221,6 +223,7 @@ impl AsStr for SyntaxError {
             SyntaxError::TrailingTokensAfterProgramEnd => "Unexpected token",
             SyntaxError::ReservedKeyword => "Use of reserved keyword",
             SyntaxError::InvalidAssignmentTarget => "Invalid assignment target",
+            SyntaxError::NestingTooDeep => "Program nest too deep",
         }
     }
 }
@@ -241,13 +244,24 @@ where
     cur: SpannedToken<'ast>,
     errors: Diagnostics<'ast>,
     arena: &'ast Arena,
+    // Native stack probe for the recursive descent, anchored in `parse_program`.
+    stack: StackGuard,
+    // Set once the source nested deeper than the stack budget allows.
+    too_deep: bool,
 }
 
 impl<'src: 'ast, 'ast> Parser<'src, 'ast> {
     /// Creates a new [`Parser`] instance.
     pub fn new(mut lexer: Lexer<'ast, 'src>, arena: &'ast Arena) -> Self {
         let cur = lexer.next().unwrap_or_default();
-        Self { lexer, cur, errors: Diagnostics::new(arena), arena }
+        Self {
+            lexer,
+            cur,
+            errors: Diagnostics::new(arena),
+            arena,
+            stack: StackGuard::new(),
+            too_deep: false,
+        }
     }
 
     #[inline]
@@ -270,13 +284,34 @@ impl<'src: 'ast, 'ast> Parser<'src, 'ast> {
     }
 
     fn emit_error(&mut self, span: Span, error: SyntaxError, labels: Vec<Label<'ast>>) {
-        self.errors.emit(span, Severity::Error, "syntax", error.as_str(), labels);
+        // Everything after the nesting error is fallout of abandoning the parse.
+        if !self.too_deep {
+            self.errors.emit(span, Severity::Error, "syntax", error.as_str(), labels);
+        }
+    }
+
+    /// Probes the native stack on entry to a recursive parse function. The first time the
+    /// budget is exceeded this reports the error and moves the cursor to the end of input,
+    /// so every enclosing loop terminates; from then on callers return placeholders.
+    #[inline]
+    fn nest_too_deep(&mut self) -> bool {
+        if !self.too_deep && self.stack.exceeded() {
+            let span = self.cur.span;
+            let message = ArenaCow::Borrowed("Dis code nest pass wetin I fit parse");
+            self.emit_error(span, SyntaxError::NestingTooDeep, vec![Label { span, message }]);
+            self.too_deep = true;
+            while self.cur.token != Token::EOF {
+                self.bump();
+            }
+        }
+        self.too_deep
     }
 
     /// Returns the parsed program as a Block reference.
     /// Lexer errors are merged into the parser's diagnostics so the caller
     /// gets a single unified error report for both lexical and syntax errors.
     pub fn parse_program(&mut self) -> (BlockRef<'ast>, &Diagnostics<'ast>) {
+        self.stack = StackGuard::new();
         let block_ref = self.parse_program_body();
         if self.cur.token != Token::EOF {
             self.emit_error(self.cur.span, SyntaxError::TrailingTokensAfterProgramEnd, Vec::new());
@@ -351,6 +386,10 @@ impl<'src: 'ast, 'ast> Parser<'src, 'ast> {
 
     #[inline]
     fn parse_statement(&mut self) -> StmtRef<'ast> {
+        if self.nest_too_deep() {
+            let expr = self.alloc(Expr::Null(Range::default()));
+            return self.alloc(Stmt::Expression { expr, span: Range::default() });
+        }
         let start = self.cur.span.start;
         match &self.cur.token {
             Token::Do => self.parse_function_def(start),
@@ -862,6 +901,9 @@ impl<'src: 'ast, 'ast> Parser<'src, 'ast> {
 
     #[inline]
     fn parse_expression(&mut self, min_bp: u8) -> ExprRef<'ast> {
+        if self.nest_too_deep() {
+            return self.alloc(Expr::Null(Range::default()));
+        }
         let start = self.cur.span.start;
 
         // Parse the left-hand side (primary expression)
